@@ -415,7 +415,17 @@ func vEnded(st *vStep, pre *vPre) {
 		}
 		vA(st, verifImplies(gone, !owns), "ended-session-owns-no-nickname")
 	}
-	_ = pre
+	// a session that ended (or is marked deleted) has left every channel
+	for x, s := range t.all() {
+		ended := verifOr(!vLive(i, s), s.deleted)
+		listed := false
+		for _, ch := range t.chans {
+			if vChanExists(i, ch) {
+				listed = verifOr(listed, verifAnd(pre.sess[x].nick != "", vChanHasNick(ch, NickToLower(pre.sess[x].nick))))
+			}
+		}
+		vA(st, verifImplies(ended, !listed), "ended-session-is-on-no-channel")
+	}
 }
 
 // vA asserts with a label that names the call site class (role and command of
